@@ -189,9 +189,12 @@ def checkC03 (b : Book) (_ : Unit) : CEv → Unit × Option String
   | .obs (.ret (.dispatch _) r) =>
       -- end of a top-level poll with the transport writable throughout: every abandoned call whose
       -- request is on the wire and has not ended must have its cancel on the wire by now
-      -- (a dispatch that completes while handles or calls are alive does so because the peer ended the read side:
-      -- the connection is lost and no cancel is owed; a completion after the last handle went away must have drained)
-      if b.topPoll && !b.pollReadyP && !b.failed && (r == .pending || (r == .readyOk && b.senders == 0)) then
+      -- (only a poll that goes idle is judged here: a dispatch that *completes* either saw the peer end the read side —
+      -- the connection is lost and no cancel is owed — or shuts down after the last handle went away, where the
+      -- C10 monitor demands that every queued cancel was written before the transport was closed)
+      -- (after a failure that loses the connection the dispatch may go idle once more while it drains its queues
+      -- before it ends with the error: no cancel is owed any more)
+      if b.topPoll && !b.pollReadyP && !b.failed && r == .pending then
         let owed := b.calls.filter fun ci =>
           ci.dropped && match b.sendOfBody ci.body with
             | some sd => !reqEnded b sd && !(b.cancels.any (·.1 == sd.id))
